@@ -188,3 +188,8 @@ package diagnostic
 //@ loop 0 invariant no-gap-so-far (and (<= -1 rangeindex) (< rangeindex (len file.lines)) isFake
 //@    (= prev (ite (= rangeindex -1) -1 (idx file.lines rangeindex)))
 //@    (forall ((k Int)) (=> (and (<= 0 k) (< k rangeindex)) (<= (- (idx file.lines (+ k 1)) (idx file.lines k)) 1))))
+
+//@ -- C04: nolint ranges are ordered by all three of their fields
+//@ func compareRanges
+//@ prop C04
+//@ ensures zero-only-for-equal-ranges (= (= result 0) (= a b))
